@@ -406,7 +406,7 @@ def agc_cvarint(x):
     return [AGC_PREF[4]] + [(n >> (8 * j)) & 0xff for j in (3, 2, 1, 0)]
 
 
-def vint_points():
+def vint_points(thorough=False):
     lo = [0] + AGC_THR
     hi = [t - 1 for t in AGC_THR] + [(1 << 32) - 1]
     pts = set()
@@ -416,6 +416,18 @@ def vint_points():
                 if a <= x <= b:
                     pts.add(x)
         pts.add((a + b) // 2)
+    if thorough:
+        pts.update(range(0, 20000))                       # classes 1 and 2 completely, the start of class 3
+        for a, b in zip(lo, hi):
+            x = a
+            while x <= b:                                   # a stride sweep through every class
+                pts.add(x)
+                x += max(1, (b - a) // 4099)
+            for sh in range(0, 32):                         # every power of two and its neighbours
+                for d in (-1, 0, 1):
+                    v = (1 << sh) + d
+                    if a <= v <= b:
+                        pts.add(v)
     return sorted(pts)
 
 
@@ -423,14 +435,15 @@ _VINT = {}
 
 
 def vint_eval(F):
-    if id(F) in _VINT:
-        return _VINT[id(F)]
+    vk = (id(F), getattr(F, "tier", "quick"))
+    if vk in _VINT:
+        return _VINT[vk]
     from vecint import VecInterp
     from absint import Undecidable, Panic
     enc, dec = F.funcs.get(COL.replace("CollectionV3::", "CollectionVarInt::") + "encode"), F.funcs.get(COL.replace("CollectionV3::", "CollectionVarInt::") + "decode")
     res = {"n": 0, "rt": [], "fmt": [], "trunc": [], "undec": None, "enc": enc, "dec": dec}
     if not enc or not dec:
-        _VINT[id(F)] = res
+        _VINT[vk] = res
         return res
 
     def decode(buf):
@@ -439,7 +452,7 @@ def vint_eval(F):
         r = it.run(dec, env, 0, None)
         return r, list(it.target(env[9000]))
     try:
-        for x in vint_points():
+        for x in vint_points(getattr(F, "tier", "quick") == "thorough"):
             res["n"] += 1
             out = []
             try:
@@ -464,7 +477,7 @@ def vint_eval(F):
                     res["trunc"].append("decode panics on the first %d of %d bytes of the encoding of %d (%s)" % (cut, len(out), x, e))
     except Undecidable as e:
         res["undec"] = str(e)
-    _VINT[id(F)] = res
+    _VINT[vk] = res
     return res
 
 
